@@ -323,12 +323,15 @@ private:
 		if(! tempList.empty()) {
 			for(auto it = tempList.begin(); it != tempList.end(); ) {
 				using ArgsTuple = typename PrototypeInfo::ArgsTuple;
-				auto item = it->template get<QueuedItem<ArgsTuple> >();
 
-				if(item.callableIndex != PrototypeInfo::index) {
+				// Look at the prototype index through the common base first: the slot may hold
+				// an event of another prototype, which must not be read as QueuedItem<ArgsTuple>.
+				if(it->template get<QueuedItemBase>().callableIndex != PrototypeInfo::index) {
 					++it;
 					continue;
 				}
+
+				auto item = it->template get<QueuedItem<ArgsTuple> >();
 				if(doInvokeFuncWithQueuedEvent(
 					func,
 					item,
@@ -361,7 +364,14 @@ private:
 			}
 		}
 
-		using NextPrototypeInfo = FindPrototypeByCallableFromIndex<PrototypeInfo::index + 1, PrototypeList, F>;
+		// Continue the search with the prototypes listed after the current one.
+		using NextPrototypeInfo = FindPrototypeByCallableFromIndex<
+			PrototypeInfo::index + 1,
+			typename SkipHeterTuple<PrototypeInfo::index + 1, PrototypeList>::Type,
+			F,
+			FindPrototypeDefaultArgTransformer,
+			HeterTupleSize<PrototypeList>::value
+		>;
 		if(doProcessIf<NextPrototypeInfo>(std::forward<F>(func))) {
 			return true;
 		}
